@@ -448,6 +448,9 @@ def build_frame(desc):
         cls = classes()[desc['cls']]
         kwargs = {n: from_desc(v) for n, v in desc['args'].items()}
         return cls(**kwargs), ch
+    if k == 'header' and desc.get('noprops'):
+        return lib.header.ContentHeader(desc.get('weight', 0),
+                                        desc['body_size']), ch
     if k == 'header':
         props = lib.commands.Basic.Properties(
             **{n: from_desc(v) for n, v in desc['props'].items()})
